@@ -256,12 +256,94 @@ def r5(ctx):
     ctx.floor(n, 3, "computing branches of get_column_expr_value", GCEV)
 
 
+
+PREC = {"Add": 1, "Subtract": 1, "Multiply": 2, "Divide": 2, "Modulo": 2}
+
+
+def r6(ctx):
+    """the text of an arithmetic expression (the per-row cache key, group key and JSON key) determines its tree: an operand
+    is written in brackets whenever leaving them out would print the text of a different tree (left operand: binds looser
+    than the operator around it; right operand: binds looser or equally, since the parser associates to the left)"""
+    import interp
+    dh = ctx.anchor_hir(DISPLAY)
+    sites = []
+    for c in walk_exprs(dh):
+        if c["k"] == "Call" and c.get("callee", "").startswith("expr::") and c["args"] and render(peel(c["args"][0])) in ("left", "right"):
+            sites.append(c)
+    sides = {render(peel(c["args"][0])) for c in sites}
+    ok = sides == {"left", "right"}
+    ctx.obligation(ok)
+    if not ok:
+        ctx.violation("key/brackets/sites", ctx.where(DISPLAY), "Display for Expr must write both operands through a helper that decides on brackets; "
+                      "found helper calls for %s" % sorted(sides))
+        return
+    n = 0
+    ops = list(PREC)
+    for c in sites:
+        side = render(peel(c["args"][0]))
+        helper = c["callee"]
+        fn = ctx.prog.fns.get(helper)
+        if not fn or "hir" not in fn or "params" not in fn:
+            ctx.violation("key/brackets/helper", ctx.where(DISPLAY, c), "cannot see the body of %s" % helper)
+            continue
+        outer_idx = [i for i, a in enumerate(c["args"]) if "arithmetic_op" in render(a)]
+        for inner in ops:
+            for outer in ops:
+                need = PREC[inner] < PREC[outer] if side == "left" else PREC[inner] <= PREC[outer]
+                tmpl = []
+
+                def effect(node, it, env, tmpl=tmpl):
+                    if node.get("mac") in ("write", "writeln"):
+                        tmpl.extend(t for t, _ in fmt_templates(node))
+                        return (interp.V("Result::Ok", [()]),)
+                    return None
+                it = interp.Interp(effect=effect)
+                env = {}
+                for i, p in enumerate(fn["params"]):
+                    if p["k"] != "Bind":
+                        continue
+                    if i == 0:
+                        env[p["id"]] = {"arithmetic_op": interp.some(interp.V("ArithmeticOp::" + inner)), "minus": False,
+                                        "left": interp.Opaque("left"), "right": interp.Opaque("right"), "function": interp.NONE,
+                                        "field": interp.NONE, "val": interp.NONE, "args": interp.NONE, "op": interp.NONE, "logical_op": interp.NONE}
+                    elif i in outer_idx:
+                        env[p["id"]] = interp.some(interp.V("ArithmeticOp::" + outer))
+                    else:
+                        try:
+                            env[p["id"]] = interp.Interp().ev(c["args"][i], {})      # literal arguments (e.g. a side flag)
+                        except (interp.Undecided, IndexError):
+                            env[p["id"]] = interp.Opaque(p["name"])
+                try:
+                    it.run(fn["hir"], env)
+                except interp.Undecided as e:
+                    ctx.violation("key/brackets/undecided", ctx.where(helper), "cannot evaluate the bracket decision of %s for inner %s, outer %s: %s" % (short(helper, 1), inner, outer, e))
+                    return
+                n += 1
+                bracketed = any(t.startswith("(") and t.endswith(")") for t in tmpl)
+                ok = bracketed or not need
+                ctx.obligation(ok)
+                if not ok:
+                    a, b = ("(x %s y) %s z", "x %s y %s z") if side == "left" else ("x %s (y %s z)", "x %s y %s z")
+                    sym = {"Add": "+", "Subtract": "-", "Multiply": "*", "Divide": "/", "Modulo": "%"}
+                    s1 = a % ((sym[inner], sym[outer]) if side == "left" else (sym[outer], sym[inner]))
+                    s2 = b % ((sym[inner], sym[outer]) if side == "left" else (sym[outer], sym[inner]))
+                    ctx.violation("key/brackets/%s/%s-in-%s" % (side, inner, outer), ctx.where(helper),
+                                  "the %s operand `%s` inside `%s` is written without brackets: `%s` and `%s` are different trees with the "
+                                  "same text, so they share one cached value / JSON key / group key" % (side, inner, outer, s1, s2))
+                if not outer_idx:
+                    break
+    ctx.covered("bracket decision of Display for Expr over (side, inner operator, outer operator), evaluated on the source by the finite interpreter",
+                n, distinct_keys=["%s" % s for s in sides], exhaustive=True)
+
 RULES = [
     ("C15-R1", "precedence layering, left association, brackets, unary minus in the parser", r1),
     ("C15-R2", "ArithmeticOp::calc table and operand order", r2),
     ("C15-R3", "cache key (expression text) depends on every field the evaluator reads", r3),
     ("C15-R4", "unary minus is applied by every evaluator branch", r4),
     ("C15-R5", "cache write-through: the stored value is the returned (signed) value", r5),
+    ("C15-R6", "the expression text brackets every operand whose omission would collide with another tree", r6),
+    ("X-LEXCLASS", "lexer operator / arithmetic character classes and context flags [shared]", lambda ctx: __import__("extra").lexer_classes(ctx)),
+    ("X-VARIANT", "Variant constructors, text renderings and coercion order [shared]", lambda ctx: __import__("extra").variant_constructors(ctx)),
 ]
 
 EXPLANATION = (
@@ -271,7 +353,8 @@ EXPLANATION = (
     "operator to its f64 operation with (left, right) order and the evaluator passes (value of left, value of "
     "right); the text used as per-row cache key / JSON key reads every Expr field the evaluator reads (MIR field "
     "read sets) and brackets nested arithmetic operands; every evaluator branch applies the leading minus. f64 "
-    "arithmetic/formatting and the lexer's operator-vs-text decisions are not decided.")
+    "arithmetic/formatting and the lexer's operator-vs-text decisions are not decided."
+    " The bracket decision of Display for Expr is evaluated for every (side, inner operator, outer operator): an operand is bracketed whenever omitting brackets would print another tree's text.")
 ASSUMPTIONS = ["rustc's HIR/MIR faithfully represent the source; exporter and rule scripts are correct"]
 NOT_DECIDED = ["f64 arithmetic and number formatting", "the lexer's decision whether + - * / % are operators on arbitrary text",
                "full injectivity of the expression text (only the necessary field-dependence and bracketing are decided)"]
